@@ -422,6 +422,8 @@ func (vc *VC) emit(st *State, o *Obligation, goal string) {
 		fmt.Fprintf(&b, "(assert (forall ((s (Array %s Bool)) (k %s)) (! (= (%s (store s k true)) (ite (select s k) (%s s) (+ (%s s) 1))) :pattern ((%s (store s k true))))))\n", ks, ks, fnName, fnName, fnName, fnName)
 		fmt.Fprintf(&b, "(assert (forall ((s (Array %s Bool)) (k %s)) (! (= (%s (store s k false)) (ite (select s k) (- (%s s) 1) (%s s))) :pattern ((%s (store s k false))))))\n", ks, ks, fnName, fnName, fnName, fnName)
 		fmt.Fprintf(&b, "(assert (forall ((s (Array %s Bool))) (! (=> (= (%s s) 0) (= s ((as const (Array %s Bool)) false))) :pattern ((%s s)))))\n", ks, fnName, ks, fnName)
+		// finite sets: a subset with the same cardinality is the whole set (assumed lemma, listed in the trusted base)
+		fmt.Fprintf(&b, "(assert (forall ((a (Array %s Bool)) (b (Array %s Bool))) (! (=> (and (= (%s a) (%s b)) (forall ((k %s)) (=> (select a k) (select b k)))) (= a b)) :pattern ((%s a) (%s b)))))\n", ks, ks, fnName, fnName, ks, fnName, fnName)
 	}
 	for _, a := range st.asm {
 		b.WriteString("(assert " + a + ")\n")
@@ -1825,6 +1827,9 @@ func (vc *VC) next(st *State, fr *Frame, x *ssa.Next) bool {
 	for _, li := range vc.loopsOf(fr.fn) {
 		if li.head == x.Block() {
 			fr.names[fmt.Sprintf("visited%d", li.ordinal)] = nameEntry{V: SetV{T: st.arr[visName], K: SInt}, T: &setType{K: tInt}}
+			// key<k> / val<k>: the entry produced by this iteration (also when the source discards it with _)
+			fr.names[fmt.Sprintf("key%d", li.ordinal)] = nameEntry{V: Sc{k, ks}, T: it.KT}
+			fr.names[fmt.Sprintf("val%d", li.ordinal)] = nameEntry{V: val, T: it.VT}
 		}
 	}
 	st.trail = append(st.trail, "range: next key")
